@@ -37,6 +37,9 @@ func NewTableConfig(spoolDir, badMetricsMaxAge string, vLegacy validate.LevelLeg
 	if err != nil {
 		return TableConfig{}, fmt.Errorf("could not parse badMetrics max age: %s", err.Error())
 	}
+	if maxAge <= 0 {
+		return TableConfig{}, fmt.Errorf("badMetrics max age must be positive, got %s", maxAge)
+	}
 
 	return TableConfig{
 		spoolDir,
